@@ -1,5 +1,6 @@
 import PppModel.Spec.Tlv
 import PppModel.Lemmas.Bytes
+import PppModel.Props.C02
 
 /-!
 # C11 — TLV iteration yields exactly the standard walk and then stops
@@ -222,5 +223,212 @@ example : tlvCollect [4, 0, 1, 42, 5, 0, 0, 9] =
 
 example : tlvCollect [4, 0, 1, 42, 5, 0xFF, 0xFF, 9] =
     [.ok ⟨4, [42]⟩, .error (.invalidTLV 5 65535)] := by decide
+
+/-! ### Additions after audit 4: the post-`None` state, the section of an accepted header,
+a positional statement per item -/
+
+/-- "Never yields an item after the end", part 1: `Iter.step` (the transcription of
+`Iterator::next` that also returns the state left behind on `None`) leaves the state
+unchanged when it returns `None`, exactly as the Rust returns before touching `offset`. -/
+theorem step_none_stable (it : Iter) : (it.step).1 = none → (it.step).2 = it := by
+  unfold Iter.step
+  intro h
+  split
+  · rfl
+  · rename_i hoff
+    simp only [hoff, if_false] at h
+    split at h
+    · cases h
+    · split at h <;> cases h
+
+/-- `Iter.step` and `Iter.next` are the same function: same item, same successor state on
+every item, and the unchanged state where `next` has none. -/
+theorem step_eq_next (it : Iter) :
+    it.step = match it.next with
+      | none => (none, it)
+      | some (i, it') => (some i, it') := by
+  unfold Iter.step Iter.next
+  split
+  · rfl
+  · dsimp only
+    split
+    · rfl
+    · split <;> rfl
+
+/-- `step` returns `None` exactly when `next` does, i.e. when the cursor is at or past the end. -/
+theorem step_none_iff (it : Iter) : (it.step).1 = none ↔ it.next = none := by
+  rw [step_eq_next]
+  cases it.next with
+  | none => simp
+  | some p => simp
+
+/-- "Never yields an item after the end", part 2 (fused): once a poll has returned `None`,
+every later poll returns `None` and the state never changes again. -/
+theorem step_none_forever (it : Iter) (h : (it.step).1 = none) (k : Nat) :
+    Iter.poll k (it.step).2 = (List.replicate k none, it) := by
+  rw [step_none_stable it h]
+  induction k with
+  | zero => rfl
+  | succ k ih =>
+    have hs : it.step = (none, it) := Prod.ext h (step_none_stable it h)
+    simp only [Iter.poll, hs, ih, List.replicate_succ]
+
+/-- "After an error", in the `step` form: the poll after an error item returns `None` and
+leaves the state where the error left it (cursor at the end of the section). -/
+theorem step_after_error (it : Iter) (e : ParseError) (h : (it.step).1 = some (.error e)) :
+    (it.step).2.step = (none, (it.step).2) ∧ (it.step).2.offset = it.bytes.length := by
+  have hs := step_eq_next it
+  cases hn : it.next with
+  | none => rw [hn] at hs; rw [hs] at h; cases h
+  | some p =>
+    obtain ⟨i, it'⟩ := p
+    rw [hn] at hs
+    dsimp only at hs
+    rw [hs] at h ⊢
+    simp only [Option.some.injEq] at h
+    subst h
+    have hex := after_error_exhausted it it' e hn
+    refine ⟨by rw [step_eq_next, hex], ?_⟩
+    unfold Iter.next at hn
+    split at hn
+    · cases hn
+    · dsimp only at hn
+      split at hn
+      · cases hn; rfl
+      · split at hn
+        · cases hn; rfl
+        · cases hn
+
+/-- Non-vacuity: polling four times over a one-item section: the item, then `None` three
+times with the cursor staying at 4. -/
+example : Iter.poll 4 (Iter.ofBytes [4, 0, 1, 42]) =
+    ([some (.ok ⟨4, [42]⟩), none, none, none], { bytes := [4, 0, 1, 42], offset := 4 }) := by decide
+
+/-- Per-item positional statement: an item yielded at cursor `o` is the encoding found at
+`o`, the new cursor is right behind it (no gap, no overlap), its value has fewer than
+65536 bytes (so `Spec.Tlv.enc` is injective on yielded items and `tiling` means what it says). -/
+theorem next_ok_at {it it' : Iter} {t : Tlv} (h : it.next = some (.ok t, it')) :
+    it.bytes.drop it.offset = enc t ++ it.bytes.drop it'.offset ∧ t.value.length < 65536 := by
+  have hoff : it.offset < it.bytes.length := by
+    apply Nat.lt_of_not_le
+    intro hle
+    rw [show it = { bytes := it.bytes, offset := it.offset } from rfl, next_none _ _ hle] at h
+    cases h
+  rw [show it = { bytes := it.bytes, offset := it.offset } from rfl, next_at _ _ hoff] at h
+  rcases hd : it.bytes.drop it.offset with _ | ⟨k, _ | ⟨hi, _ | ⟨lo, rest⟩⟩⟩
+  · rw [hd] at h; cases h
+  · rw [hd] at h; cases h
+  · rw [hd] at h; cases h
+  · rw [hd] at h
+    dsimp only at h
+    split at h
+    · cases h
+    · rename_i hge
+      simp only [Option.some.injEq, Prod.mk.injEq, Except.ok.injEq] at h
+      obtain ⟨rfl, rfl⟩ := h
+      have hn : hi.toNat * 256 + lo.toNat ≤ rest.length := by omega
+      have hlenn : (rest.take (hi.toNat * 256 + lo.toNat)).length = hi.toNat * 256 + lo.toNat := by
+        simp; omega
+      have hhi : UInt8.ofNat ((rest.take (hi.toNat * 256 + lo.toNat)).length / 256) = hi := by
+        rw [hlenn]; have := hi.toNat_lt; have := lo.toNat_lt
+        apply UInt8.toNat_inj.mp; simp; omega
+      have hlo : UInt8.ofNat ((rest.take (hi.toNat * 256 + lo.toNat)).length % 256) = lo := by
+        rw [hlenn]; have := lo.toNat_lt
+        apply UInt8.toNat_inj.mp; simp
+      have hdrop : it.bytes.drop (it.offset + (3 + (hi.toNat * 256 + lo.toNat))) =
+          rest.drop (hi.toNat * 256 + lo.toNat) := by
+        rw [← List.drop_drop, hd]
+        rw [show 3 + (hi.toNat * 256 + lo.toNat) = (hi.toNat * 256 + lo.toNat) + 3 by omega]
+        simp
+      refine ⟨?_, ?_⟩
+      · simp only [enc, hhi, hlo, hdrop, List.cons_append, List.take_append_drop]
+      · simp only [hlenn]
+        have := hi.toNat_lt; have := lo.toNat_lt
+        omega
+
+/-- Non-vacuity of `next_ok_at`: the second item of a two-item section. -/
+example : (Iter.next { bytes := [4, 0, 1, 42, 5, 0, 0, 9], offset := 4 }) =
+    some (.ok ⟨5, []⟩, { bytes := [4, 0, 1, 42, 5, 0, 0, 9], offset := 7 }) := by decide
+
+/-- "The TLV section of any accepted header", which bytes it is: for a header that is the
+wire encoding (`Spec.V2.encode`, independent of the model) of a command, a transport, an
+address value of a family other than unspecified and a trailing section `rest`, followed by
+arbitrary bytes, `tlvs()` yields exactly the reference walk of `rest`.
+
+The hypothesis `hle` (the payload fits the 16-bit length field) is not in the statement the
+audit suggested; without it the statement is false: the encoder's length field wraps, the
+parser then accepts a shorter header and `h.tlvs` is the walk of a proper prefix of `rest`. -/
+theorem header_tlvs_of_encode_partial {cmd : Command} {tr : Transport} {addr : Addresses}
+    {rest trail : B} {h : Header}
+    (hle : (Spec.V2.addrBytes addr).length + rest.length ≤ 65535)
+    (hne : addr.family ≠ .unspec)
+    (hp : V2.parse (Spec.V2.encode cmd tr addr rest ++ trail) = .ok h) :
+    h.tlvs = walk rest := by
+  have hq : V2.parse (Spec.V2.encode cmd tr addr rest ++ trail) = .ok (encHeader cmd tr addr rest) :=
+    (C02.accept_iff _ _).mpr ⟨cmd, tr, addr, rest, trail, hle, rfl, rfl⟩
+  rw [hq] at hp
+  cases hp
+  obtain ⟨-, -, -, h4⟩ := views_of_encode cmd tr addr rest
+  rw [header_tlvs_eq_walk, h4, if_neg hne]
+
+/-- The bound `hle` in `header_tlvs_of_encode_partial` cannot be dropped: with an IPv4
+address block and a 65536-byte section starting `0, 0, 0` the payload has 65548 bytes, the
+16-bit length field of the encoding wraps to 12, the parser accepts the 28-byte header with
+an empty TLV section, while the walk of the section is not empty. -/
+theorem header_tlvs_of_encode_needs_bound :
+    ∃ (cmd : Command) (tr : Transport) (addr : Addresses) (rest trail : B) (h : Header),
+      addr.family ≠ .unspec ∧
+      V2.parse (Spec.V2.encode cmd tr addr rest ++ trail) = .ok h ∧
+      h.tlvs = [] ∧ walk rest ≠ [] := by
+  obtain ⟨tl, htl⟩ : ∃ tl : B, tl.length = 65533 := ⟨List.replicate 65533 0, List.length_replicate ..⟩
+  let addr : Addresses :=
+    .ipv4 { srcAddr := ⟨0, 0, 0, 0⟩, srcPort := 0, dstAddr := ⟨0, 0, 0, 0⟩, dstPort := 0 }
+  have hx : Spec.V2.encode .proxy .stream addr (0 :: 0 :: 0 :: tl) ++ [] =
+      Spec.V2.encode .proxy .stream addr [] ++ (0 :: 0 :: 0 :: tl) := by
+    have ha : (Spec.V2.addrBytes addr).length = 12 := rfl
+    have hu : Spec.V2.u16be (12 + (65533 + 1 + 1 + 1)) = Spec.V2.u16be (12 + 0) := by decide
+    simp only [Spec.V2.encode, List.length_cons, htl, ha, List.length_nil, hu, List.append_nil,
+      List.append_assoc]
+  have hq : V2.parse (Spec.V2.encode .proxy .stream addr (0 :: 0 :: 0 :: tl) ++ []) =
+      .ok (encHeader .proxy .stream addr []) := by
+    rw [hx]
+    exact (C02.accept_iff _ _).mpr ⟨.proxy, .stream, addr, [], _, by decide, rfl, rfl⟩
+  refine ⟨.proxy, .stream, addr, 0 :: 0 :: 0 :: tl, [], _, by decide, hq, ?_, ?_⟩
+  · obtain ⟨-, -, -, h4⟩ := views_of_encode .proxy .stream addr []
+    show tlvCollect (encHeader .proxy .stream addr []).tlvBytes = []
+    rw [h4]
+    rfl
+  · rw [walk, walkFrom]
+    simp
+
+/-- For the unspecified family the whole payload is the address view, so the TLV section
+of an accepted header is empty and `tlvs()` yields nothing (the clause "section of every
+accepted header" is vacuous for that family). -/
+theorem header_tlvs_unspec {x : B} {h : Header} (hp : V2.parse x = .ok h)
+    (hu : h.addressFamily = .unspec) : h.tlvs = [] := by
+  obtain ⟨cmd, tr, addr, rest, trail, -, -, rfl⟩ := (C02.accept_iff x h).mp hp
+  obtain ⟨-, -, -, h4⟩ := views_of_encode cmd tr addr rest
+  have hu' : addr.family = .unspec := hu
+  have : (encHeader cmd tr addr rest).tlvBytes = [] := by rw [h4, if_pos hu']
+  show tlvCollect (encHeader cmd tr addr rest).tlvBytes = []
+  rw [this]
+  rfl
+
+/-- Non-vacuity of `header_tlvs_of_encode_partial`: an IPv4 header with the section
+`[4, 0, 1, 42]` and a two-byte trailer; the walk is the single item `(4, [42])`. -/
+example :
+    (V2.parse (Spec.V2.encode .proxy .stream
+        (.ipv4 { srcAddr := ⟨127, 0, 0, 1⟩, srcPort := 80, dstAddr := ⟨192, 168, 1, 1⟩, dstPort := 443 })
+        [4, 0, 1, 42] ++ [0x50, 0x52])).toOption.map Header.tlvs = some [.ok ⟨4, [42]⟩] ∧
+    walk [4, 0, 1, 42] = [.ok ⟨4, [42]⟩] :=
+  ⟨by decide, by rw [← collect_eq_walk]; decide⟩
+
+/-- Non-vacuity of `header_tlvs_unspec`: a LOCAL / UNSPEC header with a 4-byte payload is
+accepted, its family is unspecified, it has no TLVs. -/
+example :
+    (V2.parse [0x0D, 0x0A, 0x0D, 0x0A, 0x00, 0x0D, 0x0A, 0x51, 0x55, 0x49, 0x54, 0x0A,
+               0x20, 0x00, 0x00, 0x04, 4, 0, 1, 42]).toOption.map
+      (fun h => (h.addressFamily, h.tlvs, h.addressBytes)) =
+      some (.unspec, [], [4, 0, 1, 42]) := by decide
 
 end C11
